@@ -107,6 +107,7 @@ def requirements(tier):
         req["kepler:arg:" + a] = 500
         req["j2:arg:" + a] = 500
     req.update({
+        "M2E-calls-monitored": 10000,
         "kepler:dt-negative": 500, "kepler:dt-positive": 500,
         "kepler:uv-compared": 2000, "kepler:elements-compared": 2000, "kepler:composition": 2000,
         "kepler:inverse": 2000, "kepler:periodicity": 300, "kepler:hyperbolic-uv-compared": 500,
@@ -114,6 +115,13 @@ def requirements(tier):
         "j2:polar-node-checked": 100, "j2:critical-perigee-checked": 200, "j2:composition": 1000, "j2:inverse": 1000,
     })
     return req
+
+
+class NonTermination(Exception):
+    """Raised by the iteration-budget monitor inside Form.M2E (never by the library)."""
+
+
+M2E_BUDGET = 20000  # evaluations of sin / sinh inside ONE call of Form.M2E (a converging Newton needs < 20)
 
 
 def setup(ctx, job):
@@ -126,7 +134,40 @@ def setup(ctx, job):
     for name, body in gen.bodies().items():
         if name != "Earth":
             frames[name] = [Frame(f"VmonC05{name}Inertial", orient.EME2000, Center(f"VmonC05{name}", body=body))]
+    # --- termination monitor (deterministic, no wall clock): Form.M2E iterates `while abs(E1 - E) >= tol`;
+    # the module-level sin / sinh it calls are looked up late, so a counting wrapper can bound one call.
+    from beyond.orbits import forms as forms_mod
+    from beyond.orbits.forms import Form
+
+    mon = {"active": False, "n": 0, "args": None}
+
+    def counting(fn):
+        def wrapper(x, *a, **k):
+            if mon["active"]:
+                mon["n"] += 1
+                if mon["n"] > M2E_BUDGET:
+                    mon["active"] = False
+                    raise NonTermination(f"Form.M2E(e={mon['args'][0]!r}, M={mon['args'][1]!r}): more than {M2E_BUDGET} iterations")
+            return fn(x, *a, **k)
+
+        return wrapper
+
+    orig = {"sin": forms_mod.sin, "sinh": forms_mod.sinh}
+    forms_mod.sin = counting(orig["sin"])
+    forms_mod.sinh = counting(orig["sinh"])
+    raw_m2e = Form.__dict__["M2E"].__func__
+
+    def guarded_m2e(cls, e, M):
+        mon["active"], mon["n"], mon["args"] = True, 0, (float(e), float(M))
+        try:
+            return raw_m2e(cls, e, M)
+        finally:
+            mon["active"] = False
+            ctx.count("M2E-calls-monitored")
+
+    Form.M2E = classmethod(guarded_m2e)
     return {
+        "restore": (forms_mod, orig, Form, Form.__dict__["M2E"], raw_m2e),
         "frames": frames,
         "j2": float(Earth.J2),
         "re": float(Earth.equatorial_radius),
@@ -136,6 +177,9 @@ def setup(ctx, job):
 
 
 def finish(ctx, job, st):
+    forms_mod, orig, Form, _g, raw = st["restore"]
+    forms_mod.sin, forms_mod.sinh = orig["sin"], orig["sinh"]
+    Form.M2E = classmethod(raw)
     # the universal-variable truth is cross-checked by a second route; if they disagree the case is
     # not judged.  That must stay exceptional, otherwise the run proves nothing.
     ctx.inconclusive_if(
@@ -373,6 +417,11 @@ def run_case(ctx, job, idx, rng, st):
         try:
             res = o.propagate(argument(argtype, d0, micro))
             arr = read_state(res, frame)
+        except NonTermination as exc:
+            # the Newton iteration of the mean -> eccentric/hyperbolic anomaly conversion cycles for ever
+            ctx.violation(f"C05/{K}-mean-to-eccentric-anomaly-iteration-does-not-terminate{hy}",
+                          dict(W, step=tag, t_us=micro, exc=str(exc)), f"{tag}: {exc}")
+            return None
         except Exception as exc:  # the property promises a state for every such input
             ctx.violation(f"C05/{K}-propagate-raises{hy}", dict(W, step=tag, exc=repr(exc)), f"{tag}: propagate raised {exc!r}")
             return None
